@@ -34,6 +34,10 @@ CHECKS = {
    text="Exploration: each run delivers one exchange under a sampled tap configuration to the HTTP or unified analyzer (per-packet path or the real sequential loop) and checks: reported iff the reference reports it and equal to it, at most once per direction, attributed to the sender, and never before the head (generator's head length, not the parser's) is contiguously present. Violation classes are separated by cause (wrap, non-contiguous, early, order, segmentation, direction, duplicate-report).",
    note="Reference = same code on the in-order one-segment delivery at ISN 1000/5000 (so an error shared by every delivery is invisible here; C05/C16 territory). Retransmitted duplicates are not injected: the statement quantifies over divisions, origins and orders. Deliveries stay inside the 60 s flow TTL.",
    design="4/C09"),
+ "C11": dict(engine="netsim", technique="deterministic simulation with a counting allocator as cost oracle: long never-fingerprinting connections (endless HTTP heads, binary after SYN, oversized/unfinished TLS records, application data after a non-hello record, random bytes) in parallel on one analyzer, simulated clock advancing past the TTLs; allocation and live-heap sampled around every delivered packet",
+   text="Exploration: per delivered segment the bytes allocated while handling it and the heap bytes live after it are compared with fixed bounds (live <= connections x 512 KiB + 1 MiB; per packet <= 2 MiB + 64 x packet length; median of a connection's last tenth <= 2 x first tenth + 1 MiB). Quick: up to 2000 segments per connection; thorough: up to 100000. Capacities 1/4/64/1000, 1..12 parallel connections, segment sizes 1..1460.",
+   note="Constants are fixed in c11.rs and deliberately loose; they were revised once (from 128 KiB / 256 KiB) after measuring the parsers' constant factor (~17x the buffered bytes in temporaries) and per-segment bookkeeping, before the repair was written - see DESIGN. Work is measured as bytes allocated, a proxy for time that is deterministic; CPU time is not measured.",
+   design="4/C11"),
  "C15": dict(engine="netsim", technique="deterministic simulation: seeded traces of well-formed and malformed frames (Ethernet/raw/NULL 0x1e/AF loopback framing, IPv4 IHL 0..15, total-length/protocol/ethertype/version lies, truncation) x generated FilterConfigs; filtered run vs unfiltered run on the admitted sub-trace at the same simulated times",
    text="Exploration: filters are generated from the trace's own endpoints so that each sub-filter matches about half of them; all four analyzers (the unified one through its real packet loop). Checked per packet: nothing is reported for endpoints the filter rejects (endpoints as the analyzer's own parser assigns them), and every admitted packet yields exactly what the unfiltered analyzer yields on the admitted sub-trace.",
    note="admit(p) is the repository's own FilterConfig::should_process applied to the analyzer's view of the packet (C14, the predicate's truth table, is not claimed). Packets whose endpoints the analyzer does not define (non-TCP, unparseable) are kept in the sub-trace (fail-open, as documented).",
